@@ -9,6 +9,8 @@ def owners(tag, kind):
         out.add("C13")
     if kind == "REMB" and tag in ("C02:roundtrip_value", "C03:bytes", "C04:value", "C04:valid_rejected"):
         out.add("C14")
+    if kind == "REMB" and tag in ("C03:marshalto_bytes", "C08:marshalto_short_buffer_accepted"):
+        out.add("C14")   # the count octet and the bitrate words of MarshalTo are REMB coding
     if kind == "REMB" and tag == "C18:packet_modified":
         out.add("C14")   # a read-only call that rewrites the decoded Bitrate: the packet no longer holds mantissa x 2^exponent
     if kind == "XR" and base in ("C02", "C03", "C04"):
@@ -31,14 +33,14 @@ def prop(pid, stages, **kw):
 
 WIRE_NOTE = "McWire enumerates every value of the star domains of spec/Domain.tla (all 15 packet kinds: one field at a time) and McWirePairs the pairwise domains (two fields or list lengths varied together, the varied element in the middle of a list); every emitted behaviour is replayed; random drivers add sampled values"
 
-prop("C01", lambda t, s: [("drive", "soak", n(t, 70000, 300000)), ("mc", "Mc", n(t, "McFaults", "McFaults2")), ("mc", "Mc", "McFaultsDev"), ("drive", "fuzz", n(t, 1500, 40000)), ("drive", "bigdec", n(t, 0, 1)), ("drive", "amplify", 0)],
+prop("C01", lambda t, s: [("drive", "sizes", 0), ("drive", "soak", n(t, 70000, 300000)), ("mc", "Mc", n(t, "McFaults", "McFaults2")), ("mc", "Mc", "McFaultsDev"), ("drive", "fuzz", n(t, 1500, 40000)), ("drive", "bigdec", n(t, 0, 1)), ("drive", "amplify", 0)],
      exhaustive_note="McFaults enumerates every first-order fault of spec/Faults.tla on the tiny domain; every faulted buffer goes to all 16 packet decoders, 7 sub-decoders and the datagram decoder; McFaultsDev does the same from the encodings of the deviating model (SLI with PT 205, CCFB num_reports n-1), which are the ones the library's SLI and CCFB decoders accept")
-prop("C02", lambda t, s: [("drive", "dict", 0), ("mc", "Mc", "McWire"), ("mc", "Mc", "McWirePairs"), ("mc", "Mc", "McReuse"), ("drive", "reuserand", n(t, 300, 10000)), ("drive", "rt", n(t, 1500, 60000)), ("drive", "rtlist", n(t, 300, 10000)), ("drive", "bigframes", n(t, 0, 1)), ("drive", "recombine", n(t, 300, 10000))], exhaustive_note=WIRE_NOTE)
-prop("C03", lambda t, s: [("drive", "dict", 0), ("mc", "Mc", "McWire"), ("mc", "Mc", "McWirePairs"), ("mc", "Mc", "McVariants"), ("drive", "rt", n(t, 1500, 60000)), ("drive", "bigframes", n(t, 0, 1)), ("mc", "Mc", n(t, "McCompound", "McCompound4")), ("drive", "cprand", n(t, 200, 10000)), ("mc", "Mc", "McLoose"), ("drive", "errpaths", n(t, 200, 10000))], exhaustive_note=WIRE_NOTE)
-prop("C05", lambda t, s: [("mc", "Mc", "McWire"), ("mc", "Mc", "McWirePairs"), ("drive", "rt", n(t, 1500, 60000)), ("drive", "rtlist", n(t, 300, 10000)), ("drive", "bigframes", n(t, 0, 1)), ("drive", "cprand", n(t, 200, 10000)), ("mc", "Mc", "McLoose")], exhaustive_note=WIRE_NOTE)
+prop("C02", lambda t, s: [("mc", "Mc", "McWireUnk"), ("drive", "sizes", 0), ("drive", "dict", 0), ("mc", "Mc", "McWire"), ("mc", "Mc", "McWirePairs"), ("mc", "Mc", "McReuse"), ("drive", "reuserand", n(t, 300, 10000)), ("drive", "rt", n(t, 1500, 60000)), ("drive", "rtlist", n(t, 300, 10000)), ("drive", "bigframes", n(t, 0, 1)), ("drive", "recombine", n(t, 300, 10000))], exhaustive_note=WIRE_NOTE)
+prop("C03", lambda t, s: [("drive", "sizes", 0), ("drive", "dict", 0), ("mc", "Mc", "McWire"), ("mc", "Mc", "McWirePairs"), ("mc", "Mc", "McVariants"), ("drive", "rt", n(t, 1500, 60000)), ("drive", "bigframes", n(t, 0, 1)), ("mc", "Mc", n(t, "McCompound", "McCompound4")), ("drive", "cprand", n(t, 200, 10000)), ("mc", "Mc", "McLoose"), ("drive", "errpaths", n(t, 200, 10000))], exhaustive_note=WIRE_NOTE)
+prop("C05", lambda t, s: [("drive", "sizes", 0), ("mc", "Mc", "McWire"), ("mc", "Mc", "McWirePairs"), ("drive", "rt", n(t, 1500, 60000)), ("drive", "rtlist", n(t, 300, 10000)), ("drive", "bigframes", n(t, 0, 1)), ("drive", "cprand", n(t, 200, 10000)), ("mc", "Mc", "McLoose")], exhaustive_note=WIRE_NOTE)
 prop("C09", lambda t, s: [("mc", "Mc", "McForeignPairs"), ("drive", "dict", 0), ("mc", "Mc", n(t, "McFaults", "McFaults2")), ("mc", "Mc", "McFaultsDev"), ("drive", "fuzzdgram", n(t, 8000, 300000))],
      exhaustive_note="McFaults enumerates every first-order fault on the tiny domain and follows every accepted datagram through Marshal and a second decode")
-prop("C10", lambda t, s: [("mc", "Mc", "McWire"), ("mc", "Mc", "McWirePairs"), ("mc", "Mc", "McReuse"), ("mc", "Mc", n(t, "McHist", "McHist4")), ("drive", "histrand", n(t, 300, 10000)), ("mc", "Mc", n(t, "McCompound", "McCompound4")), ("drive", "rt", n(t, 1500, 60000)), ("drive", "cprand", n(t, 300, 20000))],
+prop("C10", lambda t, s: [("mc", "Mc", "McWireUnk"), ("mc", "Mc", "McWire"), ("mc", "Mc", "McWirePairs"), ("mc", "Mc", "McReuse"), ("mc", "Mc", n(t, "McHist", "McHist4")), ("drive", "histrand", n(t, 300, 10000)), ("mc", "Mc", n(t, "McCompound", "McCompound4")), ("drive", "rt", n(t, 1500, 60000)), ("drive", "cprand", n(t, 300, 20000))],
      exhaustive_note=WIRE_NOTE + "; McCompound gives every member sequence of up to 3 (thorough: 4) over 14 representative kinds to CompoundPacket.DestinationSSRC")
 
 DEFAULT_LEVEL = ("Bounded exhaustive model checking of the TLA+ specification (the property's invariants hold in every reachable state of the bounded "
@@ -53,9 +55,9 @@ prop("C04", lambda t, s: [("mc", "Mc", "McForeignPairs"), ("drive", "dict", 0), 
      exhaustive_note="McVariants enumerates every alternative and count-inflated encoding of spec/Variants.tla over VarDom/InflateDom; McFaults every first-order fault on the tiny domain")
 prop("C06", lambda t, s: [("mc", "Datagram", n(t, "McDatagram", "McDatagram3")), ("mc", "Mc", n(t, "McDgram", "McDgram3")), ("drive", "frameseq", n(t, 600, 30000)), ("drive", "bigframes", n(t, 0, 1)), ("drive", "amplify", 0)],
      exhaustive_note="McDgram enumerates every sequence of up to 2 (thorough: 3) pieces over the frame set of spec/Domain.tla (valid frames of every kind, raw frames, malformed frames, incomplete tails)")
-prop("C07", lambda t, s: [("mc", "Mc", "McForeignPairs"), ("drive", "dict", 0), ("mc", "Mc", n(t, "McDispatch", "McDispatchAll")), ("mc", "Mc", "McForeign"), ("mc", "Mc", "McWire"), ("drive", "fuzz", n(t, 600, 20000)), ("drive", "amplify", 0)],
+prop("C07", lambda t, s: [("drive", "sizes", 0), ("mc", "Mc", "McForeignPairs"), ("drive", "dict", 0), ("mc", "Mc", n(t, "McDispatch", "McDispatchAll")), ("mc", "Mc", "McForeign"), ("mc", "Mc", "McWire"), ("drive", "fuzz", n(t, 600, 20000)), ("drive", "amplify", 0)],
      exhaustive_note="McDispatch enumerates 28 packet types (thorough: all 256) x 32 FMT values x 4 bodies; McForeign gives every star-domain encoding to all 16 decoders")
-prop("C08", lambda t, s: [("mc", "Mc", "McLimits"), ("drive", "limits", n(t, 1000, 60000)), ("mc", "Mc", "McLoose")],
+prop("C08", lambda t, s: [("drive", "sizes", 0), ("mc", "Mc", "McLimits"), ("drive", "limits", n(t, 1000, 60000)), ("mc", "Mc", "McLoose")],
      exhaustive_note="McLimits enumerates the values at, just below and just above every wire limit named by the property (LimitDom of spec/Domain.tla)")
 
 prop("C11", lambda t, s: [("mc", "Mc", n(t, "McCompound", "McCompound4")), ("drive", "cprand", n(t, 600, 30000))],
@@ -70,7 +72,7 @@ prop("C13", lambda t, s: [("mc", "TwccAlg", n(t, "McTwcc", "McTwccThorough")), (
 prop("C14", lambda t, s: [("mc", "RembAlg", n(t, "McRemb", "McRembThorough")), ("mc", "Mc", "McWireRemb"), ("mc", "Mc", "McReuseDev"), ("drive", "rembrand", n(t, 300, 20000)), ("drive", "sweeps14", n(t, 65537, 1)), ("drive", "amplify", 0)],
      exhaustive_note="McRemb steps the decoder loop on 53 structured mantissas x 5 exponents and the encoder loop on 128 boundary floats, and emits the complete 2^18 mantissa table at exponent 0 (thorough: at 0, 1, 31, 62, 63) plus the structured rows at 6 (thorough: all 64) exponents; the scaling lemma RowOK extends the exponent-0 table to the other exponents; the encoder is covered by the complete table of the 2^18 integers (thorough: also the 2^17 leading-18-bit values at one exponent) plus Go sweeps of the lemmas EncLemmas over all floats of each range (exhaustive in the thorough tier, every 4097th in the quick tier)")
 
-prop("C15", lambda t, s: [("mc", "XrWalk", n(t, "McXr", "McXrThorough")), ("mc", "Mc", "McWireXr"), ("drive", "xrrand", n(t, 1500, 60000)), ("drive", "bigframes", n(t, 0, 1)), ("drive", "amplify", 0)],
+prop("C15", lambda t, s: [("mc", "Mc", "McWireUnk"), ("mc", "XrWalk", n(t, "McXr", "McXrThorough")), ("mc", "Mc", "McWireXr"), ("drive", "xrrand", n(t, 1500, 60000)), ("drive", "bigframes", n(t, 0, 1)), ("drive", "amplify", 0)],
      exhaustive_note="McXr enumerates every sequence of 0..2 (thorough: 0..3) report blocks over 17 block choices (the 7 defined kinds, unknown types 0, 8, 255 with different contents, empty and longer lists, other flag combinations) and walks each encoding with an independent block walker; McWireXr sweeps the XR star domain")
 
 prop("C16", lambda t, s: [("mc", "UnitsMc", "McUnitsThorough"), ("mc", "Mc", "McWireUnits"), ("mc", "Mc", "McWirePairs"), ("drive", "units", n(t, 2000, 50000)), ("drive", "sweeps16", n(t, 65537, 1)), ("mc", "Mc", "McLoose")],
@@ -85,7 +87,7 @@ prop("C18", lambda t, s: [("drive", "soak", n(t, 70000, 300000)), ("mc", "Concur
      assumptions=["the Go race detector reports only the races that occur in the sampled schedules"])
 
 # vacuity guard: the least number of distinct behaviours each configuration must emit for replay
-MIN_BEHAVIOURS = {"McLoose": 80, "McTwcc3": 3500, "McWirePairs": 1300, "McForeignPairs": 1300, "McFaultsDev": 400, "McWire": 900, "McFaults": 3000, "McFaults2": 20000, "McLimits": 80, "McVariants": 250, "McForeign": 800, "McDispatch": 3000,
+MIN_BEHAVIOURS = {"McLoose": 80, "McTwcc3": 3500, "McWirePairs": 1300, "McForeignPairs": 1300, "McWireUnk": 700, "McFaultsDev": 400, "McWire": 900, "McFaults": 3000, "McFaults2": 20000, "McLimits": 80, "McVariants": 250, "McForeign": 800, "McDispatch": 3000,
                   "McDispatchAll": 30000, "McDgram": 600, "McDgram3": 10000, "McCompound": 5000, "McCompound4": 50000, "McNack": 5000,
                   "McNackThorough": 15000, "McTwcc": 7000, "McTwccThorough": 50000, "McRemb": 2100, "McRembThorough": 5000, "McWireRemb": 100,
                   "McXr": 300, "McXrThorough": 4000, "McWireXr": 180, "McUnits": 200, "McUnitsThorough": 1500, "McWireUnits": 250,
